@@ -103,10 +103,11 @@ def microdvd_documents():
 
 
 def _read_back(r, what):
-    if not isinstance(r, Stub) or not isinstance(r.attrs.get("_captions"), dict) or len(r.attrs["_captions"]) != 1:
+    from .foldutil import captions_by_language
+    by_lang = captions_by_language(r, what=what)
+    if len(by_lang) != 1:
         raise AnalysisError(f"{what}: folded result is not a one-language CaptionSet")
-    lst = list(r.attrs["_captions"].values())[0]
-    lst = lst.attrs["__list__"] if isinstance(lst, Stub) else lst
+    lst = list(by_lang.values())[0]
     got = []
     for c in lst:
         rows, cur = [], ""
